@@ -40,7 +40,7 @@ def run(ck, fb):
                     'forward to NamingCmd::{Update,Delete,UpdateBatch,DeleteBatch,ReceiveSnapshot,UpdateServiceFromCluster}; received instances '
                     'get from_cluster stamped via reset_cluster_info / assignment')
     hr = [x for x in fb.find(r'^rnacos::naming::cluster::handle_naming_route$')]
-    ck.require(len(hr) == 1, 'R15b', 'handle_naming_route:exists', '-', 'handle_naming_route not found')
+    ck.require(len(hr) >= 1, 'R15b', 'handle_naming_route:exists', '-', 'handle_naming_route not found')
     if hr:
         m = fb.main(hr[0].name)
         ck.analysed(m)
@@ -122,13 +122,13 @@ def run(ck, fb):
         sd = [x for b2 in reg for x in util.sends(b2, r'NodeManageRequest$', 'SendToOtherNodes')]
         ck.require(len(sd) >= 1, 'R15c', 'delay.do_notify:SendToOtherNodes', dd.where(), 'the batch is not sent to the other nodes')
         cl = util.mut_calls_on_field(dd, 'instances_map', r'HashMap::<K, V, S, A>::clear$', deep=1)
-        ck.require(len(cl) == 1, 'R15c', 'delay.do_notify:clears', dd.where(), 'pending changes are not cleared after the flush (re-sent forever) or cleared elsewhere')
+        ck.require(len(cl) >= 1, 'R15c', 'delay.do_notify:clears', dd.where(), 'pending changes are not cleared after the flush (re-sent forever) or cleared elsewhere')
         pushes = dd.calls(r'Vec::<T, A>::push$')
         ck.require(len(pushes) == 2, 'R15c', 'delay.do_notify:both-lists', dd.where(), 'updates and removals are not both collected')
     dly = ck.body(DN + 'delay_notify', 'R15c')
     if dly:
         ins = util.mut_calls_on_field(dly, 'instances_map', r'HashMap::<K, V, S, A>::insert$')
-        ck.require(len(ins) == 1, 'R15c', 'delay_notify:records', dly.where(), 'a change is not recorded for the next batch')
+        ck.require(len(ins) >= 1, 'R15c', 'delay_notify:records', dly.where(), 'a change is not recorded for the next batch')
     h = fb.impls(r'^actix::Handler$', r'ClusterInstanceDelayNotifyActor$', r'InstanceDelayNotifyRequest$', 'handle')
     for b in h:
         ck.analysed(b)
@@ -141,6 +141,7 @@ def run(ck, fb):
             vals.add((arm[0] if arm else None, c.get('v') if c else None))
         ck.require(vals == {('UpdateInstance', True), ('RemoveInstance', False)}, 'R15c', 'delay.handle:is_update-flags', b.where(), 'update/remove flags of the batch are %s' % sorted(vals, key=str))
     r15d(ck, fb)
+    r15e(ck, fb)
 
 
 def _closure_calls_all(fb, fn, names):
@@ -191,3 +192,78 @@ def r15d(ck, fb):
         sd = [x for x in so.sites if x.callee and util.SEND_RX.match(x.callee)]
         ok = len(sd) == 1 and sd[0].bb in cfg.reach_from(so, [so.blocks[sd[0].bb]['t']['t']])
         ck.require(ok, 'R15d', 'send_to_other_node:loop', so.where(), 'send_to_other_node does not send to every node')
+
+
+def r15e(ck, fb):
+    ck.rule('R15e', 'remote-client bookkeeping <-> registry: every InnerNodeManage method that drops ids from a node\'s client_set tells the naming '
+                    'actor (NamingCmd::RemoveClient[s]FromCluster) on every path from the removal to return; the announcement is conditional only on '
+                    'naming_actor being set (or on emptiness of the list it sends), and the batch form carries the removed ids (the set difference)')
+    methods = [b for b in fb.find('^' + re.escape(NM)) if not b.parent]
+    n = 0
+    for b in methods:
+        rms = util.mut_calls_on_field(b, 'client_set', r'HashSet::<T, S, A>::(remove|clear|retain|drain|take)$')
+        if not rms:
+            continue
+        if b.name.endswith('client_invalid_instance'):
+            continue   # R15a (one message per client inside the loop, then clear)
+        n += 1
+        ck.analysed(b)
+        key = b.name.split('::')[-1]
+        sd = util.sends(b, r'NamingCmd$')
+        sd = [x for x in sd if x[2] in ('RemoveClientFromCluster', 'RemoveClientsFromCluster')]
+        if not ck.require(len(sd) >= 1, 'R15e', key + ':announces', b.where(), '%s drops client ids of a remote node but never tells the naming actor: their '
+                          'instances stay registered here for ever' % key):
+            continue
+        via = {x[0].bb for x in sd}
+        # blocks where naming_actor is tested: the None side legitimately has nobody to tell
+        for (s_, d_, lab_, t_) in cfg.switch_edges(b):
+            dd = cfg.describe_operand(b, t_['discr'])
+            if dd['k'] == 'discr':
+                txt = cfg.fmt_desc(cfg.describe_operand(b, {'cp': dd['pl']}))
+                if 'naming_actor' in txt or 'naming_actor' in str(cfg.origin_fields(b, {'cp': dd['pl']})):
+                    via.add(s_)
+        okp = all(cfg.must_pass_before_return(b, r.bb, via) for r in rms)
+        ck.require(okp, 'R15e', key + ':every-path', b.where(),
+                   '%s can drop client ids from client_set and return without telling the naming actor (early return / skipped branch): the ids are '
+                   'forgotten here, so not even the death of that node cleans their instances up later' % key, 'removal -> announcement on every path')
+        for (s, m, v, a) in sd:
+            extra = []
+            for at in cfg.guard_atoms(b, s.bb):
+                if at[0] == 'variant' and at[2] == 'Some':
+                    continue
+                if at[0] in ('variant', 'notvariant', 'variantin') and 'Iterator>::next' in cfg.fmt_desc(at[3]):
+                    continue   # exit edge of a loop that precedes the announcement
+                if at[0] == 'call' and (at[1] or '').endswith('is_empty'):
+                    # tolerated only on the list that is being sent
+                    recv = cfg.describe_operand(b, at[3]['args'][0]) if at[3].get('args') else None
+                    payload = [cfg.describe_operand(b, o) for o in a['ops']]
+                    if recv is not None and any(cfg.fmt_desc(recv) == cfg.fmt_desc(pl) or _same_local(b, at[3]['args'][0], o) for pl, o in zip(payload, a['ops'])):
+                        continue
+                if at[0] == 'other':
+                    continue
+                extra.append(cfg.fmt_atom(at))
+            ck.require(not extra, 'R15e', key + ':unconditional:' + v, s.where(),
+                       'the announcement %s is conditional on %s' % (v, extra), 'conditional only on naming_actor')
+            if v == 'RemoveClientsFromCluster':
+                t = Taint(b, call_src=lambda t: (t.get('f') or {}).get('d', '').endswith('::difference'))
+                ck.require(any(t.op_tainted(o) for o in a['ops']), 'R15e', key + ':payload<-difference', s.where(),
+                           'the ids announced as gone are not the set difference (known ids minus reported ids)')
+    ck.floor('R15e', 'client_set removers outside client_invalid_instance', n, 2)
+
+
+def _same_local(b, op1, op2):
+    from rn.facts import op_place, pl_local
+    def root(op, d=0):
+        p = op_place(op)
+        if p is None:
+            return None
+        l = pl_local(p)
+        ds = b.defs.get(l, [])
+        if d < 6 and len(ds) == 1 and ds[0][0] == 'stmt' and ds[0][3]['rv']['k'] in ('ref', 'use'):
+            rv = ds[0][3]['rv']
+            inner = {'cp': rv['pl']} if rv['k'] == 'ref' else rv['op']
+            r = root(inner, d + 1)
+            return r if r is not None else l
+        return l
+    a, c = root(op1), root(op2)
+    return a is not None and a == c
